@@ -5,7 +5,7 @@
 (* (events computed by BiomModel), so the model is checked against exactly *)
 (* the clause set the implementation is judged by.                         *)
 (***************************************************************************)
-EXTENDS BiomProps3
+EXTENDS BiomFiles
 
 CallClauses(ev) ==
   CASE ev.call = "filter" ->
@@ -33,6 +33,10 @@ CallClauses(ev) ==
     [] ev.call = "partition"    -> Clauses_partition(ev)
     [] ev.call = "collapse"     -> IF ev.args.one_to_many THEN Clauses_collapse_otm(ev) ELSE Clauses_collapse(ev)
     [] ev.call = "subsample"    -> Clauses_subsample(ev)
+    [] ev.call = "rt_hdf5"      -> Clauses_rt_hdf5(ev)
+    [] ev.call = "rt_json"      -> Clauses_rt_json(ev)
+    [] ev.call = "rt_tsv"       -> Clauses_rt_tsv(ev)
+    [] ev.call = "subset_read"  -> Clauses_subset_read(ev)
     [] OTHER -> [TRACE_unknown_call |-> FALSE]
 
 \* clauses index tables by position; if some logged table is not even well-shaped they are
